@@ -257,6 +257,10 @@ fn stress(ctx: &mut Ctx) {
         t.push(format!("len([{}])", args.join(", ")));
         t.push(format!("{{ {} v{} }}", locals, n - 1));
         t.push(format!("fn f() {{ {} fn() {{ v0 + v{} }} }} f()()", locals, n - 1));
+        // a closure that captures every one of them
+        let all: Vec<String> = (0..n).map(|i| format!("v{}", i)).collect();
+        t.push(format!("fn f() {{ {} fn() {{ {} }} }} f()()", locals, all.join(" + ")));
+        t.push(format!("fn f(a) {{ {} fn(b) {{ fn() {{ a + b + {} }} }} }} f(1)(2)()", locals, all.join(" + ")));
     }
     for n in [10usize, 100, 1000, 5000] {
         t.push((0..n).map(|i| i.to_string()).collect::<Vec<_>>().join(" + "));
